@@ -186,4 +186,5 @@ def main(tier, replay=None):
                         "one handle per path at a time; binary modes rb, wb, r+b, w+b, ab, a+b (append: glibc's positions); printed integers are non-negative (signed text "
                         "round trips are C15's subject)"]
     camp.report()
+    runner.run_pinned(chk, {})          # open findings of this property: listed, identified by the input each entry describes
     return chk.finish()
